@@ -8,6 +8,10 @@ value (or a dependent index) and showing it is never taken.  Sites covered by th
 * `Deprecated::try_instead`: the parameter index (`parameters[number - 1]`) is in bounds for every
   format string and parameter list — the model's index carries its proof, so the function is total
   by typing, and `tryInstead_some_or_none` states it as a theorem;
+* `RobloxClass::has_property` / `has_event`: the superclass walk visits at most `len + 1` classes for every
+  class table, cyclic ones included (C11_class_walk_bounded), and finds exactly the properties of the
+  classes reachable within that many links (C11_has_property_iff) — before /repo 0720cb5 a cyclic table,
+  which loads without error, overflowed the stack;
 * display styles: a range on character boundaries never makes a writer fail (C20_no_crash);
 * every lint name the models emit exists in the registry regenerated from `use_lints!{}`.
 PARTIAL by design: of the ~250 unwrap/expect/unreachable sites the rest rely on full_moon invariants
@@ -19,6 +23,7 @@ import Selene.Std.TryInstead
 import Selene.Props.C06
 import Selene.Props.C20
 import Selene.Generated.Lints
+import Selene.Std.RobloxClass
 namespace Selene.Props.C11
 open Selene.Std
 
@@ -50,6 +55,32 @@ example : tryInstead ["new(%0)", "other(%1)"] #["a"] = some "other(a)" := by dec
 example : tryInstead ["n(%2, %1)"] #["a"] = none := by decide
 example : tryInstead ["m(%...) %% %x"] #["a", "b"] = some "m(a, b) % %x" := by decide
 example : tryInstead ["%4294967296"] #["a"] = none := by decide
+
+/-- **the superclass walk is bounded** by the size of the class table, whatever the links look like -/
+theorem C11_class_walk_bounded (cs : Roblox.Classes) (c : Roblox.Class) :
+    (Roblox.ancestry cs (cs.length + 1) c).length ≤ cs.length + 1 :=
+  Roblox.ancestry_length cs _ c
+
+/-- **… and answers the documented question**: a class has a property iff the class itself or one of the
+classes reached by following at most `len` superclass links lists it -/
+theorem C11_has_property_iff (cs : Roblox.Classes) (c : Roblox.Class) (p : String) :
+    Roblox.hasProperty cs c p = true ↔
+      ∃ k x, k ≤ cs.length ∧ Roblox.nthSuper cs k c = some x ∧ p ∈ x.properties := by
+  unfold Roblox.hasProperty
+  simp only [List.any_eq_true, List.contains_iff_mem]
+  constructor
+  · rintro ⟨x, hx, hp⟩
+    obtain ⟨k, hk, hn⟩ := (Roblox.mem_ancestry cs _ c x).mp hx
+    exact ⟨k, x, Nat.lt_succ_iff.mp hk, hn, hp⟩
+  · rintro ⟨k, x, hk, hn, hp⟩
+    exact ⟨x, (Roblox.mem_ancestry cs _ c x).mpr ⟨k, Nat.lt_succ_iff.mpr hk, hn⟩, hp⟩
+
+/-- a two-class cycle: the walk ends and still finds what the other class lists -/
+example :
+    let a : Roblox.Class := { superclass := "B", events := [], properties := [] }
+    let b : Roblox.Class := { superclass := "A", events := [], properties := ["Size"] }
+    Roblox.hasProperty [("A", a), ("B", b)] a "Size" = true ∧ Roblox.hasProperty [("A", a), ("B", b)] a "Foo" = false := by
+  decide
 
 /-- the lint names the Lean models emit -/
 def modelCodes : List String :=
